@@ -55,6 +55,12 @@ def merge_expressions(exps: BoolExpList) -> BoolExpList:
 
 
 def apply_cse(exps: BoolExpList) -> BoolExpList:
+    # cse looks at all the expressions at once: symbols defined by the list itself have to
+    # be inlined first, otherwise they are read before (or across) their definitions
+    defined = set(s for s, e in exps)
+    if any(len(e.free_symbols & defined) > 0 for s, e in exps):
+        exps = merge_expressions(exps)
+
     lsts = list(zip(*exps))
     repl, red = cse(list(lsts[1]))
     res = repl + list(zip(lsts[0], red))
